@@ -3,6 +3,7 @@ package main
 import (
 	"flag"
 	"fmt"
+	"os"
 	"strings"
 )
 
@@ -23,10 +24,11 @@ const (
 	rcBadInt
 	rcBadBool
 	rcSetError
+	rcVersionNotFirst
 	numRejectCauses
 )
 
-var rejectCauseNames = []string{"none", "missing-positional", "surplus-positional", "undeclared-option", "bad-int", "bad-bool", "injected-set-error"}
+var rejectCauseNames = []string{"none", "missing-positional", "surplus-positional", "undeclared-option", "bad-int", "bad-bool", "injected-set-error", "version-flag-not-in-first-position"}
 
 func hasTpl(tpl int, xs ...int) bool {
 	for _, x := range xs {
@@ -69,7 +71,7 @@ func applyReject(t *Tape, tpl int, c *CmdDecl, toks []string, cause rejectCause)
 		if !hasTpl(tpl, 0, 1, 2, 3, 5, 6) {
 			return nil, false
 		}
-		out = append(out, "y"+fmt.Sprint(t.Draw(5)))
+		out = append(out, []string{"y0", "y1", "y2", "", " "}[t.Draw(5)])
 		return out, true
 	case rcUndeclaredOption:
 		insert([]string{"-z", "--zzz", "-z=1", "--zzz=1", "-q", "-5", "-2.5", "-1e3", "-inf", "-0"}[t.Draw(10)])
@@ -88,6 +90,18 @@ func applyReject(t *Tape, tpl int, c *CmdDecl, toks []string, cause rejectCause)
 		bad := []string{"maybe", "yes", "2", "tru"}[t.Draw(4)]
 		insert([]string{"-v=" + bad, "--verbose=" + bad}[t.Draw(2)])
 		return out, true
+	case rcVersionNotFirst:
+		// the version flag is only a version request in first position; anywhere else it is an option like any
+		// other, which these specs do not list (the caller declares the version on the application)
+		switch {
+		case c.Tag != "r":
+			return nil, false
+		case tpl == 1:
+			return []string{[]string{"-v", "--verbose"}[t.Draw(2)], []string{"-V", "--version"}[t.Draw(2)]}, true
+		case tpl == 3:
+			return []string{"--num=5", []string{"-V", "--version"}[t.Draw(2)], "x1"}, true
+		}
+		return nil, false
 	case rcSetError:
 		if tpl != 6 {
 			return nil, false
@@ -103,9 +117,64 @@ func applyReject(t *Tape, tpl int, c *CmdDecl, toks []string, cause rejectCause)
 			n = 1
 		}
 		c.Decls[0].Probe.FailAt = 1 + t.Draw(n)
+		c.Decls[0].Probe.ErrKind = t.Draw(len(probeErrors))
 		return out, true
 	}
 	return nil, false
+}
+
+var ambientVars = []string{"COLUMNS", "LINES", "TERM", "NO_COLOR", "LANG", "LC_ALL"}
+
+// drawAmbient: what the terminal and the locale look like is ambient state too; the outcome must not depend on it.
+func drawAmbient(t *Tape) map[string]string {
+	if t.Draw(4) != 0 {
+		return nil
+	}
+	m := map[string]string{}
+	for _, v := range ambientVars {
+		if t.Draw(2) == 0 {
+			m[v] = []string{"20", "1", "0", "-3", "abc", "100000", "dumb", "", "C", "fr_FR.UTF-8"}[t.Draw(10)]
+		}
+	}
+	return m
+}
+
+func applyAmbient(m map[string]string) func() {
+	saved := map[string]*string{}
+	for _, v := range ambientVars {
+		if old, ok := os.LookupEnv(v); ok {
+			o := old
+			saved[v] = &o
+		} else {
+			saved[v] = nil
+		}
+		if val, ok := m[v]; ok {
+			os.Setenv(v, val)
+		} else {
+			os.Unsetenv(v)
+		}
+	}
+	return func() {
+		for v, old := range saved {
+			if old == nil {
+				os.Unsetenv(v)
+			} else {
+				os.Setenv(v, *old)
+			}
+		}
+	}
+}
+
+func caseAmbient(cc Case) map[string]string {
+	switch c := cc.(type) {
+	case *c07Case:
+		return c.Ambient
+	case *pairCase:
+		return c.A.Ambient
+	case *sessionCase:
+		return c.Invocations[0].Ambient
+	}
+	return nil
 }
 
 func drawStream(t *Tape) StreamPlan {
@@ -134,6 +203,7 @@ type c07Case struct {
 	HelpTok     string
 	ExtraBroken int // help cases: another level made invalid on purpose (-1 none)
 	VersionText string
+	Ambient     map[string]string // well-known variables of the host environment the library has no business reading
 }
 
 func (c *c07Case) Describe() interface{} {
@@ -143,6 +213,9 @@ func (c *c07Case) Describe() interface{} {
 	}
 	if c.ExtraBroken >= 0 {
 		m["level_made_invalid_on_purpose"] = c.ExtraBroken
+	}
+	if len(c.Ambient) > 0 {
+		m["ambient_environment"] = c.Ambient
 	}
 	return m
 }
@@ -222,11 +295,15 @@ func c07Invocation(t *Tape, tc *TreeCase, allowSetError bool) *c07Case {
 				tc.Tokens[c.Level] = toks
 				c.Cause = cause
 				c.Kind = "rejected"
+				if cause == rcVersionNotFirst {
+					tc.App.Version = []string{"V version", "9.9.9-sim"}
+				}
 				break
 			}
 		}
 	}
 	c.Stream = drawStream(t)
+	c.Ambient = drawAmbient(t)
 	c.Argv = tc.Argv()
 	return c
 }
@@ -283,6 +360,7 @@ func clip(s string, n int) string {
 
 func (c07Prop) Exec(cc Case, st *Stats) *Violation {
 	EnvState{}.Apply()
+	defer applyAmbient(caseAmbient(cc))()
 	if pc, ok := cc.(*pairCase); ok {
 		return execPair(pc, st, c07Verdict)
 	}
@@ -362,8 +440,11 @@ func c07Verdict(c *c07Case, runs [3]policyRun, st *Stats) *Violation {
 			if !strings.Contains(out, usage+" ") && !strings.Contains(out, usage+"\n") {
 				return &Violation{Clause: "stream-usage", Detail: pn + ": the usage of the rejecting command is missing from the error stream", Expected: usage, Observed: obs}
 			}
-			if c.Cause == rcSetError && !strings.Contains(out, errProbeSet.Error()) {
-				return &Violation{Clause: "stream-error-text", Detail: pn + ": the error returned by Set is missing from the error stream", Expected: errProbeSet.Error(), Observed: obs}
+			if c.Cause == rcSetError {
+				want := probeErrors[(c.Tree.Path[c.Level].Decls[0].Probe.ErrKind+1)%len(probeErrors)].Error()
+				if !strings.Contains(out, "Error: "+want) {
+					return &Violation{Clause: "stream-error-text", Detail: pn + ": the error returned by Set is missing from the error stream", Expected: want, Observed: obs}
+				}
 			}
 		}
 	}
@@ -472,10 +553,18 @@ func c14Invocation(t *Tape, tc *TreeCase, kind string) *c07Case {
 			tc.Tokens[lvl] = append(append(append([]string{}, toks[:pos]...), c.HelpTok), toks[pos:]...)
 		}
 	case "version":
-		tc.App.Version = []string{"V version", "v" + fmt.Sprint(1+t.Draw(9)) + ".2.3-sim"}
+		names := []string{"V version", "V W version", "version ver", "W"}[t.Draw(4)]
+		tc.App.Version = []string{names, "v" + fmt.Sprint(1+t.Draw(9)) + ".2.3-sim"}
 		c.VersionText = tc.App.Version[1]
 		c.Level = 0
-		vt := []string{"-V", "--version"}[t.Draw(2)]
+		// any of the declared names, not only the first short and the first long one
+		all := strings.Fields(names)
+		vt := all[t.Draw(len(all))]
+		if len(vt) == 1 {
+			vt = "-" + vt
+		} else {
+			vt = "--" + vt
+		}
 		// the rest of the root's own tokens may be anything, valid or not
 		tc.Tokens[0] = append([]string{vt}, tc.Tokens[0]...)
 		if t.Draw(2) == 1 {
@@ -483,12 +572,14 @@ func c14Invocation(t *Tape, tc *TreeCase, kind string) *c07Case {
 		}
 	}
 	c.Stream = drawStream(t)
+	c.Ambient = drawAmbient(t)
 	c.Argv = tc.Argv()
 	return c
 }
 
 func (c14Prop) Exec(cc Case, st *Stats) *Violation {
 	EnvState{}.Apply()
+	defer applyAmbient(caseAmbient(cc))()
 	if pc, ok := cc.(*pairCase); ok {
 		return execPair(pc, st, c14Verdict)
 	}
